@@ -165,7 +165,7 @@ Record thread := mkThread {
   status : Z;
   join_thread : option nat;
   detached : bool;
-  lockh : option (nat * bool); (* the spinlock word; when taken: who holds it (thread, in its callback?) *)
+  lockh : option nat;          (* the spinlock word; when taken: the thread whose code or callback holds it (ghost) *)
   result : Z;
   main : pc;
   cb : cbpc;
@@ -197,7 +197,7 @@ Definition set_jt (th : thread) (x : option nat) : thread :=
   mkThread (status th) x (detached th) (lockh th) (result th) (main th) (cb th) (gh th).
 Definition set_detached (th : thread) (x : bool) : thread :=
   mkThread (status th) (join_thread th) x (lockh th) (result th) (main th) (cb th) (gh th).
-Definition set_lockh (th : thread) (x : option (nat * bool)) : thread :=
+Definition set_lockh (th : thread) (x : option nat) : thread :=
   mkThread (status th) (join_thread th) (detached th) x (result th) (main th) (cb th) (gh th).
 Definition set_result (th : thread) (x : Z) : thread :=
   mkThread (status th) (join_thread th) (detached th) (lockh th) x (main th) (cb th) (gh th).
@@ -316,10 +316,10 @@ Definition call_cfg (cfg : config) (s : state) (j : nat) (o : op) : option state
   | _, _ => None
   end.
 
-(** acquire [t]'s spinlock for activity ([j], [incb]) *)
+(** thread [j] acquires [t]'s spinlock *)
 Definition acquire (s : state) (j t : nat) (p : pc) : option state :=
   if opt_is_none (lockh (gt s t)) then
-    let s1 := modify s t (fun x => set_lockh x (Some (j, false))) in
+    let s1 := modify s t (fun x => set_lockh x (Some j)) in
     Some (modify s1 j (fun x => set_main x p))
   else None.
 
@@ -365,7 +365,7 @@ Definition tick (s : state) (j : nat) : option state :=
   | FLock => acquire s j j FReadJoin
   | FReadJoin =>
       let s1 := match join_thread th with Some w => wake s w | None => s end in
-      Some (modify s1 j (fun x => set_cb (set_main (set_lockh x (Some (j, true))) Finished) CbFreeStack))
+      Some (modify s1 j (fun x => set_cb (set_main x Finished) CbFreeStack))
   | NoThread | Idle | Done _ _ | JSusp _ | Finished => None
   end.
 
